@@ -23,9 +23,15 @@ Extras == {VNull, VBool(TRUE), VBool(FALSE), VNum("7"), VNum("1"), VStr("zz"), V
            VObj(<<P("zk", VNum("7"))>>), VObj(<<P("a", VNum("1"))>>), VObj(<<P("a", VStr("a")), P("b", VNull)>>), ABSENT}
 
 Universe(A, B) == LET C == Ctx(A, B, Env) IN TakeS(Wit(A, Env, C, WitFuel), 40) \cup TakeS(Wit(B, Env, C, WitFuel), 40) \cup Extras
+\* (a chain line carries a third fragment type: field ic)
+Universe3(r) == LET A == Frag[r.ia]  B == Frag[r.ib] IN
+                IF "ic" \in DOMAIN r
+                THEN LET C3 == Frag[r.ic]  C == Ctx(Uni(<<A, B>>), C3, Env) IN
+                     TakeS(Wit(A, Env, C, WitFuel), 25) \cup TakeS(Wit(B, Env, C, WitFuel), 25) \cup TakeS(Wit(C3, Env, C, WitFuel), 25) \cup Extras
+                ELSE Universe(A, B)
 
 Complaints(r) ==
-  LET A == Frag[r.ia]  B == Frag[r.ib]  U == Universe(A, B) IN
+  LET A == Frag[r.ia]  B == Frag[r.ib]  U == Universe3(r) IN
   UNION { LET ma == DMem(v, r.a, Atoms, open)  mb == DMem(v, r.b, Atoms, open) IN
           (IF r.u.ok /\ DMem(v, r.u.st, Atoms, open) # (ma \/ mb) THEN {"union-is-not-set-union"} ELSE {})
           \cup (IF r.i.ok /\ DMem(v, r.i.st, Atoms, open) # (ma /\ mb) THEN {"intersect-is-not-set-intersection"} ELSE {})
